@@ -262,11 +262,11 @@ func (lcp *LCPStateMachine) closeInternal(reason string) {
 		lcp.setState(LCPStateClosing)
 	case LCPStateOpened:
 		// This-Layer-Down
-		lcp.initializeRestartCount()
+		lcp.initializeTerminateCount()
 		lcp.sendTerminateRequest(reason)
 		lcp.setState(LCPStateClosing)
 	case LCPStateReqSent, LCPStateAckRcvd, LCPStateAckSent:
-		lcp.initializeRestartCount()
+		lcp.initializeTerminateCount()
 		lcp.sendTerminateRequest(reason)
 		lcp.setState(LCPStateClosing)
 	}
@@ -897,6 +897,12 @@ func (lcp *LCPStateMachine) SendProtocolReject(protocol uint16, data []byte) {
 
 func (lcp *LCPStateMachine) initializeRestartCount() {
 	lcp.restartCount = lcp.config.MaxConfigure
+}
+
+// initializeTerminateCount loads the restart counter for the terminate phase
+// (RFC 1661 Max-Terminate), not the Max-Configure value.
+func (lcp *LCPStateMachine) initializeTerminateCount() {
+	lcp.restartCount = lcp.config.MaxTerminate
 }
 
 func (lcp *LCPStateMachine) zeroRestartCount() {
